@@ -349,7 +349,7 @@ fn run_qnt(input: &Value) -> (Case, bool) {
     d.sort();
     d.dedup();
     let npix = rows.iter().map(|r| r.len()).sum::<usize>();
-    let sampled = k > 0 && npix / (k * 100) >= 2;
+    let sampled = k > 0 && k.checked_mul(100).map(|d| npix / d >= 2).unwrap_or(false);
     (
         Case {
             coq: format!(
@@ -362,19 +362,36 @@ fn run_qnt(input: &Value) -> (Case, bool) {
             json: j,
             tags: vec![
                 "kind=qnt".to_string(),
-                format!("k={}", k),
+                format!("k={}", if k > 100000 { "huge".to_string() } else { k.to_string() }),
                 format!("dither={}", dither),
                 format!("distinct={}", bucket(d.len())),
                 format!("fits={}", d.len() <= k),
                 format!("alpha={}", alpha),
                 format!("crop={}", crop.is_some()),
-                format!("small_view_of_large_parent={}", crop.is_some() && k > 0 && (w * h) / (k * 100) >= 2 && !sampled),
+                format!("small_view_of_large_parent={}", crop.is_some() && k > 0 && k.checked_mul(100).map(|d| (w * h) / d >= 2).unwrap_or(false) && !sampled),
                 format!("sampled={}", sampled),
             ],
             nontrivial: d.len() >= 2,
         },
         hang,
     )
+}
+
+// ------------------------------------------------------------------ RND
+
+fn run_rnd(input: &Value) -> Case {
+    let seed = input["seed"].as_u64().unwrap_or(0) as u32;
+    let n = input["n"].as_u64().unwrap_or(0) as usize;
+    let mut rnd = surf_n_term::common::Rnd::with_seed(seed);
+    let outs: Vec<u32> = (0..n).map(|_| rnd.next_u32()).collect();
+    let mut j = input.clone();
+    j["impl"] = json!(outs);
+    Case {
+        coq: format!("RND {} {}", seed, cnums(&outs)),
+        json: j,
+        tags: vec!["kind=rnd".to_string()],
+        nontrivial: n >= 2,
+    }
 }
 
 // ------------------------------------------------------------------ generators
@@ -520,11 +537,12 @@ fn gen_oct(rng: &mut Rng) -> Value {
 }
 
 fn gen_qnt(rng: &mut Rng, big: bool) -> Value {
-    let k = if big { *rng.pick(&[1u64, 1, 2]) } else { *rng.pick(&KS) };
+    let k = if big { 1 + rng.below(16) } else { *rng.pick(&KS) };
     let (h, w) = if big {
-        // enough pixels for the subsampling branch: h*w / (k*100) >= 2
-        let w = 10 + rng.below(30) as usize;
-        let need = 200 * k as usize + rng.below(260) as usize;
+        // enough pixels for the subsampling branch: h*w / (k*100) in 2..~40, up to ~10k pixels
+        let w = 10 + rng.below(90) as usize;
+        let lo = 200 * k as usize;
+        let need = (lo + rng.below((lo * 4) as u64) as usize).min(10000).max(lo);
         (need / w + 1, w)
     } else {
         (1 + rng.below(12) as usize, 1 + rng.below(16) as usize)
@@ -555,7 +573,10 @@ fn gen_qnt(rng: &mut Rng, big: bool) -> Value {
         Value::Null
     };
     let bg = if rng.chance(1, 2) {
-        json!([rng.byte(), rng.byte(), rng.byte(), 255])
+        // opaque and translucent backgrounds (the latter reach rasterize's un-premultiplication)
+        let rb = rng.byte();
+        let a = if rng.chance(1, 3) { *rng.pick(&[0u8, 1, 127, 254, rb]) } else { 255 };
+        json!([rng.byte(), rng.byte(), rng.byte(), a])
     } else {
         Value::Null
     };
@@ -681,14 +702,46 @@ fn gen_qnt_small_crop(rng: &mut Rng) -> Value {
            "dither": rng.chance(1, 2), "bg": Value::Null})
 }
 
+/// requested sizes around usize::MAX / 100 and powers of two up to 2^63 (`palette_size * 100`)
+const HUGE_KS: [u64; 10] = [
+    184467440737095516,      // floor(2^64 / 100): the product still fits
+    184467440737095517,      // the first size whose product does not fit
+    184467440737095515,
+    1 << 62,
+    1 << 63,
+    u64::MAX,
+    u64::MAX / 2,
+    (1 << 57) + 1,           // product < 2^64
+    368934881474191033,      // 2 * floor(2^64/100) + 1: wraps to a small divisor (100)
+    553402322211286549,      // wraps to 84
+];
+
+fn gen_qnt_huge_k(rng: &mut Rng) -> Value {
+    let mut v = if rng.chance(1, 2) { gen_qnt_boundary(rng) } else { gen_qnt(rng, false) };
+    v["k"] = json!(*rng.pick(&HUGE_KS));
+    v
+}
+
 pub fn generate(rng: &mut Rng, n: usize, tier: &str) -> Vec<Value> {
     let thorough = tier == "thorough";
     let mut v = vec![];
+    // common::Rnd against the model: the seed from_image uses (0) and a few others, long streams
+    v.push(json!({"kind": "rnd", "seed": 0, "n": 400}));
+    for _ in 0..3 {
+        v.push(json!({"kind": "rnd", "seed": (rng.next() & 0xffff_ffff), "n": 120}));
+    }
     for i in 0..n {
         let x = match i % 10 {
             0 | 1 | 2 => gen_kd(rng, thorough),
             3 | 4 | 5 => gen_oct(rng),
-            6 | 7 => gen_qnt(rng, false),
+            6 => gen_qnt(rng, false),
+            7 => {
+                if i % 30 == 7 {
+                    gen_qnt_huge_k(rng)
+                } else {
+                    gen_qnt(rng, false)
+                }
+            }
             8 => {
                 if i % 20 == 8 {
                     gen_qnt_small_crop(rng)
@@ -716,6 +769,7 @@ pub fn batch(inputs: &[Value]) -> Batch {
     for input in inputs {
         let (case, hang) = match input["kind"].as_str().unwrap_or("") {
             "kd" => (run_kd(input), false),
+            "rnd" => (run_rnd(input), false),
             "oct" => run_oct(input),
             _ => run_qnt(input),
         };
